@@ -492,13 +492,21 @@ PROPS = {
     "C09": {
         "properties": [
             "C09",
-            "C09_conditions"
+            "C09_conditions",
+            "C09_resolution"
         ],
         "domains": [
             {
                 "name": "c09",
                 "run_vo": "Model/RunSearch.vo",
                 "n_quick": 20,
+                "n_thorough": 400,
+                "model": True
+            },
+            {
+                "name": "c09res",
+                "run_vo": "Model/RunSearchResolve.vo",
+                "n_quick": 24,
                 "n_thorough": 400,
                 "model": True
             }
